@@ -394,7 +394,7 @@ def main(argv=None):
             harness_errors.append("%s: vacuous (paths=%d obligations=%d)" % (cond.id, r["paths"], r["obligations"]))
         if r["paths"] and r["rejected"] == r["paths"] and not cond.allow_all_rejected:
             harness_errors.append("%s: every path was rejected by the code under test" % cond.id)
-        missing = [a for a in cond.anchors if a not in r["funcs"]]
+        missing = [a for a in cond.anchors if a not in r["funcs"]] if cond.engine == "symx" else []
         if missing:
             harness_errors.append("%s: anchored functions never entered: %s" % (cond.id, missing))
         miss_cov = [c for c in cond.must_cover if c not in r["covers"]]
